@@ -19,7 +19,7 @@ type skillState struct {
 
 // enhance attack,has 3 type,use 1/2/3 skill point
 
-func (c *char) initSkill() {
+func init() {
 	modifier.Register(SkillEffect, modifier.Config{
 		StatusType: model.StatusType_STATUS_BUFF,
 		Stacking:   modifier.ReplaceBySource,
